@@ -761,4 +761,600 @@ theorem save_load_rt (b : Bytes) (hb : b.length < 2 ^ 64) :
     simp only [load]
     exact key off r hat
 
+
+/-! ## `operator<` of the model is a strict weak order; containers stay sorted; loaded values are well-formed -/
+
+/-- negative transitivity: `¬a<b → ¬b<c → ¬a<c` -/
+def NegTrans {α : Type} (lt : α → α → Bool) : Prop :=
+  ∀ a b c, lt a b = false → lt b c = false → lt a c = false
+
+theorem ltLex_negTrans {α : Type} (lt : α → α → Bool) (h : NegTrans lt) : NegTrans (ltLex lt) := by
+  intro x
+  induction x with
+  | nil =>
+    intro y z hxy hyz
+    cases y with
+    | nil => exact hyz
+    | cons b bs => simp [ltLex] at hxy
+  | cons a as ih =>
+    intro y z hxy hyz
+    cases y with
+    | nil =>
+      cases z with
+      | nil => rfl
+      | cons c cs => simp [ltLex] at hyz
+    | cons b bs =>
+      cases z with
+      | nil => rfl
+      | cons c cs =>
+        simp only [ltLex, Bool.or_eq_false_iff, Bool.and_eq_false_iff, Bool.not_eq_false'] at hxy hyz ⊢
+        obtain ⟨hab, h1⟩ := hxy
+        obtain ⟨hbc, h2⟩ := hyz
+        refine ⟨h a b c hab hbc, ?_⟩
+        rcases h1 with hba | hr1
+        · left
+          cases hca : lt c a with
+          | true => rfl
+          | false => have := h b c a hbc hca; rw [hba] at this; cases this
+        · rcases h2 with hcb | hr2
+          · left
+            cases hca : lt c a with
+            | true => rfl
+            | false => have := h c a b hca hab; rw [hcb] at this; cases this
+          · right; exact ih bs cs hr1 hr2
+
+theorem pairLt_negTrans {α β : Type} (la : α → α → Bool) (lb : β → β → Bool) (ha : NegTrans la) (hb : NegTrans lb) :
+    NegTrans (fun (x y : α × β) => la x.1 y.1 || (!la y.1 x.1 && lb x.2 y.2)) := by
+  intro x y z hxy hyz
+  simp only [Bool.or_eq_false_iff, Bool.and_eq_false_iff, Bool.not_eq_false'] at hxy hyz ⊢
+  obtain ⟨hab, h1⟩ := hxy
+  obtain ⟨hbc, h2⟩ := hyz
+  refine ⟨ha _ _ _ hab hbc, ?_⟩
+  rcases h1 with hba | hr1
+  · left
+    cases hca : la z.1 x.1 with
+    | true => rfl
+    | false => have := ha _ _ _ hbc hca; rw [hba] at this; cases this
+  · rcases h2 with hcb | hr2
+    · left
+      cases hca : la z.1 x.1 with
+      | true => rfl
+      | false => have := ha _ _ _ hca hab; rw [hcb] at this; cases this
+    · right; exact hb _ _ _ hr1 hr2
+
+theorem ltByte_negTrans : NegTrans ltByte := by
+  intro a b c h1 h2
+  simp only [ltByte, decide_eq_false_iff_not] at h1 h2 ⊢
+  omega
+
+theorem lt_negTrans : ∀ (ty : Ty), NegTrans (lt ty) := by
+  intro ty
+  induction ty with
+  | pod n =>
+    intro a b c h1 h2
+    simp only [lt, decide_eq_false_iff_not] at h1 h2 ⊢
+    omega
+  | str => exact ltLex_negTrans ltByte ltByte_negTrans
+  | vecPod n => exact ltLex_negTrans ltByte ltByte_negTrans
+  | seq t ih => exact ltLex_negTrans (lt t) ih
+  | set t ih => exact ltLex_negTrans (lt t) ih
+  | map k v ihk ihv => exact ltLex_negTrans _ (pairLt_negTrans (lt k) (lt v) ihk ihv)
+  | pair ta tb iha ihb =>
+    intro a b c h1 h2
+    exact pairLt_negTrans (lt ta) (lt tb) iha ihb a b c h1 h2
+  | ptr t ih =>
+    intro a b c h1 h2
+    cases a with
+    | none =>
+      cases b with
+      | none => exact h2
+      | some y => simp [lt] at h1
+    | some x =>
+      cases c with
+      | none => rfl
+      | some z =>
+        cases b with
+        | none => simp [lt] at h2
+        | some y => simp only [lt] at h1 h2 ⊢; exact ih x y z h1 h2
+  | mset t ih => exact ltLex_negTrans (lt t) ih
+  | mmap k v ihk ihv => exact ltLex_negTrans _ (pairLt_negTrans (lt k) (lt v) ihk ihv)
+  | arr t n ih => exact ltLex_negTrans (lt t) ih
+
+/-- transitivity from asymmetry and negative transitivity -/
+theorem trans_of_asymm_negTrans {α : Type} (lt : α → α → Bool) (hasym : ∀ a b, lt a b = true → lt b a = false)
+    (hnt : NegTrans lt) : ∀ a b c, lt a b = true → lt b c = true → lt a c = true := by
+  intro a b c hab hbc
+  cases hac : lt a c with
+  | true => rfl
+  | false =>
+    have := hnt a c b hac (hasym b c hbc)
+    rw [hab] at this; cases this
+
+theorem pairwiseB_cons {α : Type} (r : α → α → Bool) (x : α) (l : List α) :
+    pairwiseB r (x :: l) = true ↔ (∀ y ∈ l, r x y = true) ∧ pairwiseB r l = true := by
+  simp [pairwiseB, List.all_eq_true]
+
+theorem mem_setInsert {α : Type} (lt : α → α → Bool) (x : α) : ∀ (l : List α) (z : α), z ∈ setInsert lt x l → z = x ∨ z ∈ l := by
+  intro l
+  induction l with
+  | nil => intro z hz; simp [setInsert] at hz; exact Or.inl hz
+  | cons y ys ih =>
+    intro z hz
+    simp only [setInsert] at hz
+    split at hz
+    · rcases List.mem_cons.mp hz with h | h
+      · exact Or.inl h
+      · exact Or.inr h
+    · split at hz
+      · rcases List.mem_cons.mp hz with h | h
+        · exact Or.inr (h ▸ List.mem_cons_self)
+        · rcases ih z h with h' | h'
+          · exact Or.inl h'
+          · exact Or.inr (List.mem_cons_of_mem _ h')
+      · exact Or.inr hz
+
+/-- `std::set::insert` keeps the elements strictly increasing -/
+theorem setInsert_sorted {α : Type} (lt : α → α → Bool)
+    (htr : ∀ a b c, lt a b = true → lt b c = true → lt a c = true) (x : α) :
+    ∀ l : List α, pairwiseB lt l = true → pairwiseB lt (setInsert lt x l) = true := by
+  intro l
+  induction l with
+  | nil => intro _; simp [setInsert, pairwiseB]
+  | cons y ys ih =>
+    intro h
+    rw [pairwiseB_cons] at h
+    simp only [setInsert]
+    split
+    · rename_i hxy
+      rw [pairwiseB_cons]
+      refine ⟨?_, by rw [pairwiseB_cons]; exact h⟩
+      intro z hz
+      rcases List.mem_cons.mp hz with rfl | hz'
+      · exact hxy
+      · exact htr _ _ _ hxy (h.1 z hz')
+    · split
+      · rename_i _ hyx
+        rw [pairwiseB_cons]
+        refine ⟨?_, ih h.2⟩
+        intro z hz
+        rcases mem_setInsert lt x ys z hz with rfl | hz'
+        · exact hyx
+        · exact h.1 z hz'
+      · rw [pairwiseB_cons]; exact h
+
+theorem setOfList_sorted' {α : Type} (lt : α → α → Bool)
+    (htr : ∀ a b c, lt a b = true → lt b c = true → lt a c = true) (l : List α) :
+    pairwiseB lt (setOfList lt l) = true := by
+  unfold setOfList
+  have : ∀ (l acc : List α), pairwiseB lt acc = true → pairwiseB lt (l.foldl (fun acc x => setInsert lt x acc) acc) = true := by
+    intro l
+    induction l with
+    | nil => intro acc h; exact h
+    | cons x xs ih => intro acc h; exact ih _ (setInsert_sorted lt htr x acc h)
+  exact this l [] rfl
+
+theorem mem_setOfList {α : Type} (lt : α → α → Bool) (l : List α) : ∀ z, z ∈ setOfList lt l → z ∈ l := by
+  unfold setOfList
+  have : ∀ (l acc : List α) (z : α), z ∈ l.foldl (fun acc x => setInsert lt x acc) acc → z ∈ acc ∨ z ∈ l := by
+    intro l
+    induction l with
+    | nil => intro acc z h; exact Or.inl h
+    | cons x xs ih =>
+      intro acc z h
+      rcases ih _ z h with h1 | h1
+      · rcases mem_setInsert lt x acc z h1 with rfl | h2
+        · exact Or.inr List.mem_cons_self
+        · exact Or.inl h2
+      · exact Or.inr (List.mem_cons_of_mem _ h1)
+  intro z hz
+  rcases this l [] z hz with h | h
+  · cases h
+  · exact h
+
+theorem mem_mapInsert {α β : Type} (lt : α → α → Bool) (x : α × β) :
+    ∀ (l : List (α × β)) (z : α × β), z ∈ mapInsert lt x l → z = x ∨ z ∈ l := by
+  intro l
+  induction l with
+  | nil => intro z hz; simp [mapInsert] at hz; exact Or.inl hz
+  | cons y ys ih =>
+    intro z hz
+    simp only [mapInsert] at hz
+    split at hz
+    · rcases List.mem_cons.mp hz with h | h
+      · exact Or.inl h
+      · exact Or.inr h
+    · split at hz
+      · rcases List.mem_cons.mp hz with h | h
+        · exact Or.inr (h ▸ List.mem_cons_self)
+        · rcases ih z h with h' | h'
+          · exact Or.inl h'
+          · exact Or.inr (List.mem_cons_of_mem _ h')
+      · exact Or.inr hz
+
+theorem mapInsert_sorted {α β : Type} (lt : α → α → Bool)
+    (htr : ∀ a b c, lt a b = true → lt b c = true → lt a c = true) (x : α × β) :
+    ∀ l : List (α × β), pairwiseB (fun a b => lt a.1 b.1) l = true →
+      pairwiseB (fun a b => lt a.1 b.1) (mapInsert lt x l) = true := by
+  intro l
+  induction l with
+  | nil => intro _; simp [mapInsert, pairwiseB]
+  | cons y ys ih =>
+    intro h
+    rw [pairwiseB_cons] at h
+    simp only [mapInsert]
+    split
+    · rename_i hxy
+      rw [pairwiseB_cons]
+      refine ⟨?_, by rw [pairwiseB_cons]; exact h⟩
+      intro z hz
+      rcases List.mem_cons.mp hz with rfl | hz'
+      · exact hxy
+      · exact htr _ _ _ hxy (h.1 z hz')
+    · split
+      · rename_i _ hyx
+        rw [pairwiseB_cons]
+        refine ⟨?_, ih h.2⟩
+        intro z hz
+        rcases mem_mapInsert lt x ys z hz with rfl | hz'
+        · exact hyx
+        · exact h.1 z hz'
+      · rw [pairwiseB_cons]; exact h
+
+theorem mapOfList_sorted' {α β : Type} (lt : α → α → Bool)
+    (htr : ∀ a b c, lt a b = true → lt b c = true → lt a c = true) (l : List (α × β)) :
+    pairwiseB (fun a b => lt a.1 b.1) (mapOfList lt l) = true := by
+  unfold mapOfList
+  have : ∀ (l acc : List (α × β)), pairwiseB (fun a b => lt a.1 b.1) acc = true →
+      pairwiseB (fun a b => lt a.1 b.1) (l.foldl (fun acc x => mapInsert lt x acc) acc) = true := by
+    intro l
+    induction l with
+    | nil => intro acc h; exact h
+    | cons x xs ih => intro acc h; exact ih _ (mapInsert_sorted lt htr x acc h)
+  exact this l [] rfl
+
+theorem mem_mapOfList {α β : Type} (lt : α → α → Bool) (l : List (α × β)) : ∀ z, z ∈ mapOfList lt l → z ∈ l := by
+  unfold mapOfList
+  have : ∀ (l acc : List (α × β)) (z : α × β), z ∈ l.foldl (fun acc x => mapInsert lt x acc) acc → z ∈ acc ∨ z ∈ l := by
+    intro l
+    induction l with
+    | nil => intro acc z h; exact Or.inl h
+    | cons x xs ih =>
+      intro acc z h
+      rcases ih _ z h with h1 | h1
+      · rcases mem_mapInsert lt x acc z h1 with rfl | h2
+        · exact Or.inr List.mem_cons_self
+        · exact Or.inl h2
+      · exact Or.inr (List.mem_cons_of_mem _ h1)
+  intro z hz
+  rcases this l [] z hz with h | h
+  · cases h
+  · exact h
+
+theorem mem_msetInsert {α : Type} (lt : α → α → Bool) (x : α) : ∀ (l : List α) (z : α), z ∈ msetInsert lt x l → z = x ∨ z ∈ l := by
+  intro l
+  induction l with
+  | nil => intro z hz; simp [msetInsert] at hz; exact Or.inl hz
+  | cons y ys ih =>
+    intro z hz
+    simp only [msetInsert] at hz
+    split at hz
+    · rcases List.mem_cons.mp hz with h | h
+      · exact Or.inl h
+      · exact Or.inr h
+    · rcases List.mem_cons.mp hz with h | h
+      · exact Or.inr (h ▸ List.mem_cons_self)
+      · rcases ih z h with h' | h'
+        · exact Or.inl h'
+        · exact Or.inr (List.mem_cons_of_mem _ h')
+
+/-- `std::multiset::insert` keeps the elements non-decreasing -/
+theorem msetInsert_sorted {α : Type} (lt : α → α → Bool) (hasym : ∀ a b, lt a b = true → lt b a = false)
+    (hnt : NegTrans lt) (x : α) :
+    ∀ l : List α, pairwiseB (fun a b => !lt b a) l = true → pairwiseB (fun a b => !lt b a) (msetInsert lt x l) = true := by
+  intro l
+  induction l with
+  | nil => intro _; simp [msetInsert, pairwiseB]
+  | cons y ys ih =>
+    intro h
+    rw [pairwiseB_cons] at h
+    simp only [msetInsert]
+    split
+    · rename_i hxy
+      rw [pairwiseB_cons]
+      refine ⟨?_, by rw [pairwiseB_cons]; exact h⟩
+      intro z hz
+      rcases List.mem_cons.mp hz with rfl | hz'
+      · simp [hasym _ _ hxy]
+      · have h1 : lt z y = false := by simpa using h.1 z hz'
+        have := hnt z y x h1 (hasym _ _ hxy)
+        simp [this]
+    · rename_i hxy
+      rw [pairwiseB_cons]
+      refine ⟨?_, ih h.2⟩
+      intro z hz
+      rcases mem_msetInsert lt x ys z hz with rfl | hz'
+      · simpa using hxy
+      · exact h.1 z hz'
+
+theorem msetOfList_sorted' {α : Type} (lt : α → α → Bool) (hasym : ∀ a b, lt a b = true → lt b a = false)
+    (hnt : NegTrans lt) (l : List α) : pairwiseB (fun a b => !lt b a) (msetOfList lt l) = true := by
+  unfold msetOfList
+  have : ∀ (l acc : List α), pairwiseB (fun a b => !lt b a) acc = true →
+      pairwiseB (fun a b => !lt b a) (l.foldl (fun acc x => msetInsert lt x acc) acc) = true := by
+    intro l
+    induction l with
+    | nil => intro acc h; exact h
+    | cons x xs ih => intro acc h; exact ih _ (msetInsert_sorted lt hasym hnt x acc h)
+  exact this l [] rfl
+
+theorem mem_msetOfList {α : Type} (lt : α → α → Bool) (l : List α) : ∀ z, z ∈ msetOfList lt l → z ∈ l := by
+  unfold msetOfList
+  have : ∀ (l acc : List α) (z : α), z ∈ l.foldl (fun acc x => msetInsert lt x acc) acc → z ∈ acc ∨ z ∈ l := by
+    intro l
+    induction l with
+    | nil => intro acc z h; exact Or.inl h
+    | cons x xs ih =>
+      intro acc z h
+      rcases ih _ z h with h1 | h1
+      · rcases mem_msetInsert lt x acc z h1 with rfl | h2
+        · exact Or.inr List.mem_cons_self
+        · exact Or.inl h2
+      · exact Or.inr (List.mem_cons_of_mem _ h1)
+  intro z hz
+  rcases this l [] z hz with h | h
+  · cases h
+  · exact h
+
+theorem mem_mmapInsert {α β : Type} (lt : α → α → Bool) (x : α × β) :
+    ∀ (l : List (α × β)) (z : α × β), z ∈ mmapInsert lt x l → z = x ∨ z ∈ l := by
+  intro l
+  induction l with
+  | nil => intro z hz; simp [mmapInsert] at hz; exact Or.inl hz
+  | cons y ys ih =>
+    intro z hz
+    simp only [mmapInsert] at hz
+    split at hz
+    · rcases List.mem_cons.mp hz with h | h
+      · exact Or.inl h
+      · exact Or.inr h
+    · rcases List.mem_cons.mp hz with h | h
+      · exact Or.inr (h ▸ List.mem_cons_self)
+      · rcases ih z h with h' | h'
+        · exact Or.inl h'
+        · exact Or.inr (List.mem_cons_of_mem _ h')
+
+theorem mmapInsert_sorted {α β : Type} (lt : α → α → Bool) (hasym : ∀ a b, lt a b = true → lt b a = false)
+    (hnt : NegTrans lt) (x : α × β) :
+    ∀ l : List (α × β), pairwiseB (fun a b => !lt b.1 a.1) l = true →
+      pairwiseB (fun a b => !lt b.1 a.1) (mmapInsert lt x l) = true := by
+  intro l
+  induction l with
+  | nil => intro _; simp [mmapInsert, pairwiseB]
+  | cons y ys ih =>
+    intro h
+    rw [pairwiseB_cons] at h
+    simp only [mmapInsert]
+    split
+    · rename_i hxy
+      rw [pairwiseB_cons]
+      refine ⟨?_, by rw [pairwiseB_cons]; exact h⟩
+      intro z hz
+      rcases List.mem_cons.mp hz with rfl | hz'
+      · simp [hasym _ _ hxy]
+      · have h1 : lt z.1 y.1 = false := by simpa using h.1 z hz'
+        have := hnt z.1 y.1 x.1 h1 (hasym _ _ hxy)
+        simp [this]
+    · rename_i hxy
+      rw [pairwiseB_cons]
+      refine ⟨?_, ih h.2⟩
+      intro z hz
+      rcases mem_mmapInsert lt x ys z hz with rfl | hz'
+      · simpa using hxy
+      · exact h.1 z hz'
+
+theorem mmapOfList_sorted' {α β : Type} (lt : α → α → Bool) (hasym : ∀ a b, lt a b = true → lt b a = false)
+    (hnt : NegTrans lt) (l : List (α × β)) : pairwiseB (fun a b => !lt b.1 a.1) (mmapOfList lt l) = true := by
+  unfold mmapOfList
+  have : ∀ (l acc : List (α × β)), pairwiseB (fun a b => !lt b.1 a.1) acc = true →
+      pairwiseB (fun a b => !lt b.1 a.1) (l.foldl (fun acc x => mmapInsert lt x acc) acc) = true := by
+    intro l
+    induction l with
+    | nil => intro acc h; exact h
+    | cons x xs ih => intro acc h; exact ih _ (mmapInsert_sorted lt hasym hnt x acc h)
+  exact this l [] rfl
+
+theorem mem_mmapOfList {α β : Type} (lt : α → α → Bool) (l : List (α × β)) : ∀ z, z ∈ mmapOfList lt l → z ∈ l := by
+  unfold mmapOfList
+  have : ∀ (l acc : List (α × β)) (z : α × β), z ∈ l.foldl (fun acc x => mmapInsert lt x acc) acc → z ∈ acc ∨ z ∈ l := by
+    intro l
+    induction l with
+    | nil => intro acc z h; exact Or.inl h
+    | cons x xs ih =>
+      intro acc z h
+      rcases ih _ z h with h1 | h1
+      · rcases mem_mmapInsert lt x acc z h1 with rfl | h2
+        · exact Or.inr List.mem_cons_self
+        · exact Or.inl h2
+      · exact Or.inr (List.mem_cons_of_mem _ h1)
+  intro z hz
+  rcases this l [] z hz with h | h
+  · cases h
+  · exact h
+
+
+/-! ## every successful load yields a well-formed value -/
+
+/-- safety of the final state, and `P` of the value if there is one -/
+def Good {α : Type} (b : Bytes) (P : α → Prop) (r : Res α) : Prop :=
+  match r with
+  | .ok v s' => Safe b s' ∧ P v
+  | .err _ s' => Safe b s'
+
+theorem good_bind {α β : Type} (b : Bytes) (P : α → Prop) (Q : β → Prop) (r : Res α) (f : α → St → Res β)
+    (hr : Good b P r) (hf : ∀ a s, Safe b s → P a → Good b Q (f a s)) : Good b Q (r.bind f) := by
+  cases r with
+  | err e s1 => exact hr
+  | ok a s1 => exact hf a s1 hr.1 hr.2
+
+theorem good_map {α β : Type} (b : Bytes) (P : α → Prop) (Q : β → Prop) (r : Res α) (f : α → β)
+    (hr : Good b P r) (hf : ∀ a, P a → Q (f a)) : Good b Q (r.map f) := by
+  cases r with
+  | err e s1 => exact hr
+  | ok a s1 => exact ⟨hr.1, hf a hr.2⟩
+
+theorem good_loadN {α : Type} (b : Bytes) (P : α → Prop) (ld : St → Res α) (hld : ∀ s, Safe b s → Good b P (ld s)) :
+    ∀ n s, Safe b s → Good b (fun l => l.length = n ∧ ∀ x ∈ l, P x) (loadN ld n s) := by
+  intro n
+  induction n with
+  | zero => intro s hs; exact ⟨hs, rfl, by intro x hx; cases hx⟩
+  | succ n ih =>
+    intro s hs
+    unfold loadN
+    refine good_bind b P _ _ _ (hld s hs) (fun a s1 h1 pa => ?_)
+    refine good_map b _ _ _ _ (ih s1 h1) (fun l hl => ?_)
+    refine ⟨by simp [hl.1], ?_⟩
+    intro x hx
+    rcases List.mem_cons.mp hx with rfl | hx'
+    · exact pa
+    · exact hl.2 x hx'
+
+theorem good_loadPair {α β : Type} (b : Bytes) (P : α → Prop) (Q : β → Prop) (la : St → Res α) (lb : St → Res β)
+    (ha : ∀ s, Safe b s → Good b P (la s)) (hlb : ∀ s, Safe b s → Good b Q (lb s)) :
+    ∀ s, Safe b s → Good b (fun p => P p.1 ∧ Q p.2) (loadPair la lb s) := by
+  intro s hs
+  unfold loadPair
+  refine good_bind b P _ _ _ (ha s hs) (fun x s1 h1 px => ?_)
+  exact good_map b Q _ _ _ (hlb s1 h1) (fun y qy => ⟨px, qy⟩)
+
+theorem good_readChunk (b : Bytes) (hb : b.length < 2 ^ 64) (len : Nat) (s : St) (hs : Safe b s) :
+    Good b (fun d => d.length = len) (readChunk b len s) := by
+  have h := readChunk_spec b hb len s hs
+  cases hn : readChunk b len s with
+  | err e s1 => rw [hn] at h; exact h
+  | ok d s1 =>
+    rw [hn] at h
+    obtain ⟨hp, hs1, hd⟩ := h
+    refine ⟨hs1, ?_⟩
+    rw [hd]
+    apply slice_length
+    have := hs1.1
+    omega
+
+theorem good_loadCount (b : Bytes) (hb : b.length < 2 ^ 64) (s : St) (hs : Safe b s) :
+    Good b (fun _ => True) (loadCount b s) := by
+  unfold loadCount
+  exact good_map b _ _ _ _ (good_readChunk b hb _ s hs) (fun _ _ => trivial)
+
+theorem all_of_forall {α : Type} (p : α → Bool) (l : List α) (h : ∀ x ∈ l, p x = true) : l.all p = true :=
+  List.all_eq_true.mpr h
+
+theorem load_good (b : Bytes) (hb : b.length < 2 ^ 64) :
+    ∀ (ty : Ty) (s : St), Safe b s → Good b (fun v => wf ty v = true) (load b ty s) := by
+  intro ty
+  induction ty with
+  | pod n =>
+    intro s hs
+    have := good_readChunk b hb n s hs
+    unfold load
+    cases hr : readChunk b n s with
+    | err e s1 => rw [hr] at this; exact this
+    | ok d s1 => rw [hr] at this; exact ⟨this.1, by simp only [wf, beq_iff_eq]; exact this.2⟩
+  | str =>
+    intro s hs
+    have := readChunkAsString_safe b hb s hs
+    unfold load
+    cases hr : readChunkAsString b s with
+    | err e s1 => rw [hr] at this; exact this
+    | ok d s1 => rw [hr] at this; exact ⟨this, rfl⟩
+  | vecPod n =>
+    intro s hs
+    unfold load
+    have h := nextChunkSize_spec b hb s hs
+    cases hn : nextChunkSize b s with
+    | err e s1 => rw [hn] at h; exact h
+    | ok sz s1 =>
+      rw [hn] at h
+      obtain ⟨_, hle, hs1⟩ := h
+      change Good b _ (readChunk b (Gen.vpLen (Gen.vpCount sz n) n) s1)
+      have := good_readChunk b hb (Gen.vpLen (Gen.vpCount sz n) n) s1 hs1
+      cases hr : readChunk b (Gen.vpLen (Gen.vpCount sz n) n) s1 with
+      | err e s2 => rw [hr] at this; exact this
+      | ok d s2 =>
+        rw [hr] at this
+        refine ⟨this.1, ?_⟩
+        simp only [wf, beq_iff_eq]
+        rw [this.2]
+        simp only [Gen.vpLen, Gen.vpCount]
+        have h1 : sz / n * n ≤ sz := Nat.div_mul_le_self sz n
+        have h2 : sz / n * n % 18446744073709551616 = sz / n * n := Nat.mod_eq_of_lt (by omega)
+        rw [h2]
+        exact Nat.mul_mod_left _ _
+  | seq t ih =>
+    intro s hs
+    unfold load
+    refine good_bind b (fun _ => True) _ _ _ (good_loadCount b hb s hs) (fun n s1 h1 _ => ?_)
+    have := good_loadN b _ (load b t) ih n s1 h1
+    cases hr : loadN (load b t) n s1 with
+    | err e s2 => rw [hr] at this; exact this
+    | ok l s2 => rw [hr] at this; exact ⟨this.1, by simp only [wf]; exact all_of_forall _ _ this.2.2⟩
+  | set t ih =>
+    intro s hs
+    unfold load
+    refine good_bind b (fun _ => True) _ _ _ (good_loadCount b hb s hs) (fun n s1 h1 _ => ?_)
+    refine good_map b _ _ _ _ (good_loadN b _ (load b t) ih n s1 h1) (fun l hl => ?_)
+    simp only [wf, Bool.and_eq_true]
+    refine ⟨all_of_forall _ _ (fun x hx => hl.2 x (mem_setOfList (lt t) l x hx)), ?_⟩
+    exact setOfList_sorted' (lt t) (trans_of_asymm_negTrans (lt t) (lt_asymm t) (lt_negTrans t)) l
+  | map k v ihk ihv =>
+    intro s hs
+    unfold load
+    refine good_bind b (fun _ => True) _ _ _ (good_loadCount b hb s hs) (fun n s1 h1 _ => ?_)
+    refine good_map b _ _ _ _ (good_loadN b _ _ (good_loadPair b _ _ _ _ ihk ihv) n s1 h1) (fun l hl => ?_)
+    simp only [wf, Bool.and_eq_true]
+    refine ⟨all_of_forall _ _ (fun x hx => ?_), ?_⟩
+    · have := hl.2 x (mem_mapOfList (lt k) l x hx)
+      simp only [Bool.and_eq_true]; exact this
+    · exact mapOfList_sorted' (lt k) (trans_of_asymm_negTrans (lt k) (lt_asymm k) (lt_negTrans k)) l
+  | pair ta tb iha ihb =>
+    intro s hs
+    unfold load
+    have := good_loadPair b _ _ _ _ iha ihb s hs
+    cases hr : loadPair (load b ta) (load b tb) s with
+    | err e s2 => rw [hr] at this; exact this
+    | ok p s2 => rw [hr] at this; exact ⟨this.1, by simp only [wf, Bool.and_eq_true]; exact this.2⟩
+  | ptr t ih =>
+    intro s hs
+    unfold load
+    refine good_bind b (fun d => d.length = Gen.ptrFlagLen) _ _ _ (good_readChunk b hb _ s hs) (fun flag s1 h1 _ => ?_)
+    · split
+      · exact ⟨h1, rfl⟩
+      · exact good_map b _ _ _ _ (ih s1 h1) (fun x hx => by simp only [wf]; exact hx)
+  | mset t ih =>
+    intro s hs
+    unfold load
+    refine good_bind b (fun _ => True) _ _ _ (good_loadCount b hb s hs) (fun n s1 h1 _ => ?_)
+    refine good_map b _ _ _ _ (good_loadN b _ (load b t) ih n s1 h1) (fun l hl => ?_)
+    simp only [wf, Bool.and_eq_true]
+    refine ⟨all_of_forall _ _ (fun x hx => hl.2 x (mem_msetOfList (lt t) l x hx)), ?_⟩
+    exact msetOfList_sorted' (lt t) (lt_asymm t) (lt_negTrans t) l
+  | mmap k v ihk ihv =>
+    intro s hs
+    unfold load
+    refine good_bind b (fun _ => True) _ _ _ (good_loadCount b hb s hs) (fun n s1 h1 _ => ?_)
+    refine good_map b _ _ _ _ (good_loadN b _ _ (good_loadPair b _ _ _ _ ihk ihv) n s1 h1) (fun l hl => ?_)
+    simp only [wf, Bool.and_eq_true]
+    refine ⟨all_of_forall _ _ (fun x hx => ?_), ?_⟩
+    · have := hl.2 x (mem_mmapOfList (lt k) l x hx)
+      simp only [Bool.and_eq_true]; exact this
+    · exact mmapOfList_sorted' (lt k) (lt_asymm k) (lt_negTrans k) l
+  | arr t n ih =>
+    intro s hs
+    unfold load
+    have := good_loadN b _ (load b t) ih n s hs
+    cases hr : loadN (load b t) n s with
+    | err e s2 => rw [hr] at this; exact this
+    | ok l s2 =>
+      rw [hr] at this
+      exact ⟨this.1, by simp only [wf, Bool.and_eq_true, beq_iff_eq]; exact ⟨this.2.1, all_of_forall _ _ this.2.2⟩⟩
+
 end Cppcms.C19
